@@ -11,7 +11,10 @@ def extra_pairs():
     for e in ESCAPED:
         for tmpl in ('<body>%s</body>', '<p>%s</p>', '<p>x<br>%s</p>', '<a href="/x">%s</a>', '<p><img src="i.png">%s</p>',
                      '<ul><li><input value="v">%s</li></ul>', '<title>%s</title><p>t</p>', '<p title="%s">attr</p>',
-                     '<a href="/x?%s">l</a>', '<div>%s<script>real();</script></div>'):
+                     '<a href="/x?%s">l</a>', '<div>%s<script>real();</script></div>',
+                     # elements whose text is raw text only under some parser settings (scripting, frames)
+                     '<noscript>%s</noscript><p>t</p>', '<p>a<noscript>%s</noscript>b</p>', '<noframes>%s</noframes><p>t</p>', '<noembed>%s</noembed><p>t</p>', '<xmp>%s</xmp><p>t</p>',
+                     '<object data="o">%s</object>', '<button>%s</button>', '<label>%s</label>', '<pre>%s</pre>', '<td>%s</td>'):
             page = tmpl % e
             out.append((page, page))
             out.append((page, page.replace('</', ' changed</', 1)))
